@@ -20,11 +20,17 @@ def plan_items(tier, seed, d3_mod_quick=64, groups_thorough=True):
     items += [("d2", i) for i in range(A.N)]
     items += [("wrap1", w) for w in A.WRAPPERS]
     items += [("objcore", t, r) for t in (0, 1) for r in range(5)]
+    items += [("core", "numeric", k, 8) for k in range(8)] + [("core", "string", k, 4) for k in range(4)]
+    if tier != "quick":
+        items += [("core", "array", k, 64) for k in range(64)] + [("core", "composition", k, 64) for k in range(64)]
+    else:
+        items += [("core", "array", (seed * 5 + k) % 64, 64) for k in range(4)] + [("core", "composition", (seed * 5 + k) % 64, 64) for k in range(4)]
     meta = {"atoms": A.N, "leaves": len(A.LEAVES), "values": len(VAL.V), "wrappers": len(A.WRAPPERS), "depth_complete": 2}
     if tier == "quick":
         mod = d3_mod_quick
         r = seed % mod
         items += [("d3", i, mod, r) for i in range(A.N)]
+        meta["cores"] = "numeric + string keyword-family products complete; array + composition products: 4/64 seed-rotated shards"
         meta["depth3_slice"] = "pairs (i,j) with sha1(i,j) mod %d == %d (seed-rotated)" % (mod, r)
     else:
         for g, pool in A.GROUPS.items():
@@ -35,6 +41,7 @@ def plan_items(tier, seed, d3_mod_quick=64, groups_thorough=True):
         r = seed % mod
         items += [("d3", i, mod, r) for i in range(A.N)]
         meta["depth3"] = "complete inside each interaction group %s; plus 1/%d seed-rotated slice of the cross-group depth-3 lattice" % (sorted(A.GROUPS), mod)
+        meta["cores"] = "object, numeric, string, array, composition keyword-family products complete (typed and untyped)"
         meta["wrappers_over_depth"] = 2
         meta["wrapper_nesting"] = 2
     return items, meta
@@ -79,6 +86,30 @@ def expand(item):
                     if len(st) <= 3 and not typed:
                         pass  # also covered by d2/d3 slices; harmless duplicate
                     yield ("s",) + st, A.schema_of(st), VAL.V, len(st)
+    elif kind == "core":
+        # full product of one keyword family (every keyword absent or one of its atoms), typed and untyped:
+        # the k-way interactions inside a family that a depth-3 bound cannot reach
+        _, fam, shard, nshards = item
+        by = lambda kw: [None] + [a["i"] for a in A.ATOMS if a["kw"] == kw]
+        tfrag = lambda frag: [a["i"] for a in A.ATOMS if a["frag"] == frag][0]
+        fams = {
+            "numeric": ([None, tfrag({"type": "number"}), tfrag({"type": "integer"}), tfrag({"type": ["integer", "number"]})], ["minimum", "maximum", "exclusiveMinimum", "exclusiveMaximum", "multipleOf"]),
+            "string": ([None, tfrag({"type": "string"}), tfrag({"type": ["string", "null"]})], ["minLength", "maxLength", "pattern", "format"]),
+            "array": ([None, tfrag({"type": "array"})], ["items", "additionalItems", "contains", "uniqueItems", "minItems", "maxItems"]),
+            "composition": ([None, tfrag({"type": "integer"}), tfrag({"type": ["integer", "string", "boolean"]})], ["anyOf", "oneOf", "allOf", "not"]),
+        }
+        types, kws = fams[fam]
+        import itertools as _it
+
+        n = 0
+        for combo in _it.product(types, *[by(k) for k in kws]):
+            n += 1
+            if n % nshards != shard:
+                continue
+            st = tuple(x for x in combo if x is not None)
+            if len(st) <= 2:
+                continue  # already covered by the depth-2 enumeration
+            yield ("s",) + st, A.schema_of(st), VAL.V, len(st)
     elif kind == "wrap1":
         w = item[1]
         vals = VAL.lift(A.lift_position(w))
